@@ -484,3 +484,24 @@ def specialise(t, p):
     if t[0] == "c":
         return t
     return tuple(specialise(x, p) if isinstance(x, tuple) else x for x in t)
+
+
+def shared_run(ctx, mod, prop=None, flags=()):
+    """The finished context of another rule module run on the same model (its obligations are re-stated by the borrower under its own rule
+    id).  One run per (module, tier, flags) and model: the borrowers of a process share it."""
+    from ..core import Ctx
+    name = prop or mod.__name__.split(".")[-1]
+    cache = ctx.model.__dict__.setdefault("_shared_runs", {})
+    key = (mod.__name__, name, ctx.tier, tuple(flags))
+    if key in cache and cache[key] is None:
+        raise AnalysisError("rule modules borrow from each other in a cycle (%s)" % mod.__name__)
+    sub = cache.get(key)
+    if sub is None:
+        sub = Ctx(name, ctx.tier, ctx.root, model=ctx.model)
+        sub._summ = summariser(ctx)
+        for f in flags:
+            setattr(sub, f, True)
+        cache[key] = None          # a borrower that is reached again while its lender runs sees no result (recursion guard)
+        mod.run(sub)
+        cache[key] = sub
+    return sub
